@@ -21,7 +21,8 @@ def plan(tier):
         PG.many_unsendable(4, 1), PG.die_task(2), PG.big_result(1),
         PG.reusable_full_queue(), PG.reusable_resize(2, 3, 0.05), PG.reusable_resize(2, 1, None),
         PG.reusable_replace(None, False), PG.two_submitters(2, 0.05), PG.cancel_prog(1),
-        PG.memory_leak_respawn(1, None, "nowait"),
+        PG.memory_leak_respawn(1, None, "nowait"), PG.cancel_run(6, 1),
+        PG.resubmit_from_callback("bad_arg", 1), PG.resubmit_from_callback("die", 2),
     ]
     pl = [(p, 1, dict(kinds=("P", "T", "K"))) for p in progs]
     # other scheduling policies (see DESIGN 11.2): a delayed user thread, an eager manager
